@@ -7,7 +7,14 @@ import sys
 REPO = os.environ.get("VERIF_REPO", "/repo")
 
 
+_DONE = [False]
+_MODS = {}
+
+
 def use_repo():
+    if _DONE[0]:
+        return
+    _DONE[0] = True
     if REPO not in sys.path:
         sys.path.insert(0, REPO)
     # never pick up an installed copy
@@ -24,5 +31,9 @@ def converter():
 
 
 def mod(name):
-    use_repo()
-    return importlib.import_module(name)
+    m = _MODS.get(name)
+    if m is None or sys.modules.get(name) is not m:
+        use_repo()
+        m = importlib.import_module(name)
+        _MODS[name] = m
+    return m
